@@ -599,7 +599,7 @@ class Event:
         self.listing = listing  # (names in act/, names in tmp/) of the sandbox the cwd lies in
         self.source = source  # contents of the source file handed to an interpreter (source interpreter actor)
         self.stdin_text = stdin_text
-        self.extra = extra
+        self.extra = extra  # other keyword arguments; shell=True; the contents of the files act/*.probe
 
     def key(self) -> tuple:
         return (self.kind, tuple(self.args) if isinstance(self.args, list) else self.args, self.where, self.env_view,
@@ -623,7 +623,7 @@ class World:
         L16.Tree(files).write(self.dir)
         self.roots: List[str] = []
         self.log: List = []
-        self.exit_code_of: Callable[[Sequence[str]], int] = lambda args: 0
+        self.exit_code_of: Callable[[Sequence[str]], int] = _exit_code_of_tag
 
     # ---- stand-in for the subprocess module (process_executor and preprocessor)
     DEVNULL = _real_subprocess.DEVNULL
@@ -669,6 +669,11 @@ class World:
         if stdin is not None and hasattr(stdin, 'read'):
             stdin_text = stdin.read()
         x = tuple(sorted(extra.items())) + ((('shell', True),) if shell else ())
+        if root is not None:
+            for name in listing[0]:
+                if name.endswith('.probe'):
+                    with open(os.path.join(root, 'act', name)) as f:
+                        x += ((name, f.read()),)
         self.log.append(Event('proc', list(args) if not isinstance(args, str) else args, self._where(here), env_view, timeout,
                               listing, source, stdin_text, x))
         return self.exit_code_of(args)
@@ -766,6 +771,14 @@ class World:
 
 
 ENV_BASE_VAR_CLI = 'VSYM_C17_BASE'
+
+
+def _exit_code_of_tag(args) -> int:
+    """the stand-in child `<name>-exit<N>` exits with N, every other one with 0"""
+    tag = args if isinstance(args, str) else args[0]
+    if '-exit' in tag:
+        return int(tag.rsplit('-exit', 1)[1])
+    return 0
 
 
 class CliRun:
@@ -1106,4 +1119,150 @@ def history_ok(kinds: Sequence[str], observations) -> bool:
         if not obs[1] or obs[1][0] != PRISTINE_FIRST:
             if not (kind == 'reference-to-undefined-symbol' and not obs[1]):
                 return False
+    return True
+
+
+# ----------------------------------------------------------------------------- K5: instructions of a suite that use symbols of the case
+
+_F2 = ('file f.txt = <<EOF', 'first', 'second', 'EOF')
+_F1 = ('file f.txt = <<EOF', 'first', 'EOF')
+_EXP_FIRST = 'def string EXPECTED = "first\n"'
+_EXP_SECOND = 'def string EXPECTED = "second\n"'
+_CONTENTS = 'contents f.txt :'
+_EQUALS = '    equals @[EXPECTED]@'
+
+# name -> (phase of the suite that holds the instruction(s), their lines, [setup] lines of case `a`, [setup] lines of case `b`)
+# An instruction written in a suite file is executed in every case of the suite; the symbols it refers to are those of
+# the case it is executed in.  Each case is consistent with its OWN definitions (the manual: it passes when run
+# alone with the suite); it would not pass with the definitions of the other case.
+SYMBOL_FORMS = {
+    'string in a program argument': (
+        'before-assert', ('% probe @[V]@',), ('def string V = of-a',), ('def string V = of-b',)),
+    'list in program arguments': (
+        'cleanup', ('% probe @[L]@',), ('def list L = a1 a2',), ('def list L = b1',)),
+    'filter -line-nums RANGE-FROM-SYMBOL': (
+        'assert', (_CONTENTS, '    -transformed-by filter -line-nums @[N]@', _EQUALS),
+        _F2 + ('def string N = 1', _EXP_FIRST), _F2 + ('def string N = 2', _EXP_SECOND)),
+    'filter line-num == INTEGER-FROM-SYMBOL': (
+        'assert', (_CONTENTS, '    -transformed-by filter line-num == @[N]@', _EQUALS),
+        _F2 + ('def string N = 1', _EXP_FIRST), _F2 + ('def string N = 1+1', _EXP_SECOND)),
+    'filter contents matches REGEX-FROM-SYMBOL': (
+        'assert', (_CONTENTS, '    -transformed-by filter contents matches @[RE]@', _EQUALS),
+        _F2 + ('def string RE = ^f', _EXP_FIRST), _F2 + ('def string RE = ^s', _EXP_SECOND)),
+    'replace REGEX-FROM-SYMBOL': (
+        'assert', (_CONTENTS, '    -transformed-by replace @[RE]@ @[BY]@', _EQUALS),
+        _F1 + ('def string RE = ir', 'def string BY = IR', 'def string EXPECTED = "fIRst\n"'),
+        _F1 + ('def string RE = st', 'def string BY = ST', 'def string EXPECTED = "firST\n"')),
+    'text-transformer symbol': (
+        'assert', (_CONTENTS, '    -transformed-by T', _EQUALS),
+        _F2 + ('def text-transformer T = filter line-num == 1', _EXP_FIRST),
+        _F2 + ('def text-transformer T = filter line-num == 2', _EXP_SECOND)),
+    'line-matcher symbol': (
+        'assert', (_CONTENTS, '    -transformed-by filter LM', _EQUALS),
+        _F2 + ('def line-matcher LM = line-num == 1', _EXP_FIRST),
+        _F2 + ('def line-matcher LM = contents matches second', _EXP_SECOND)),
+    'text-matcher symbol': (
+        'assert', (_CONTENTS + ' TM',),
+        _F1 + ('def text-matcher TM = num-lines == 1',), _F2 + ('def text-matcher TM = num-lines == 2',)),
+    'integer-matcher symbol': (
+        'assert', (_CONTENTS + ' num-lines IM',),
+        _F1 + ('def integer-matcher IM = == 1',), _F2 + ('def integer-matcher IM = > 1',)),
+    'file-matcher symbol': (
+        'assert', ('exists f.txt : FM',),
+        _F1 + ('def file-matcher FM = type file',), ('dir f.txt', 'def file-matcher FM = type dir')),
+    'files-matcher symbol': (
+        'assert', ('dir-contents . : DM',),
+        _F1 + ('def files-matcher DM = num-files == 1',),
+        _F1 + ("file g.txt = 'g'", 'def files-matcher DM = num-files == 2')),
+    'path symbol': (
+        'assert', ('exists @[P]@',),
+        _F1 + ('def path P = -rel-act f.txt',), ("file g.txt = 'g'", 'def path P = -rel-act g.txt')),
+    'program symbol': (
+        'before-assert', ('run @ PGM from-suite',),
+        ('def program PGM = % program-of-a arg-a',), ('def program PGM = % program-of-b',)),
+    'text from a here document with a symbol': (
+        'before-assert', ('file out.probe = <<EOF', 'value: @[V]@', 'EOF', '% probe'),
+        ('def string V = of-a',), ('def string V = of-b',)),
+    'text-source symbol': (
+        'before-assert', ('file out.probe = @[TS]@', '% probe'),
+        ("def text-source TS = 'text of a'",), ("def text-source TS = 'text of b'",)),
+    'files-condition symbol': (
+        'assert', ('dir-contents . : matches -full FC',),
+        _F1 + ('def files-condition FC = { f.txt }',), _F1 + ("file g.txt = 'g'", 'def files-condition FC = {', '  f.txt', '  g.txt', '}')),
+    'env value from symbol': (
+        'before-assert', ('env VSYM_C17_X = @[V]@', '% probe'), ('def string V = of-a',), ('def string V = of-b',)),
+    'timeout from symbol': (
+        'before-assert', ('timeout = @[N]@', '% probe'), ('def string N = 11',), ('def string N = 2*11',)),
+    'cd to directory from symbol': (
+        'before-assert', ('cd @[D]@', '% probe'), ('dir da', 'def string D = da'), ('dir db', 'def string D = db')),
+    'exit-code == INTEGER-FROM-SYMBOL': (
+        'assert', ('exit-code == @[N]@',), ('def string N = 0',), ('def string N = 5+2',),
+        dict(act_a=('% act-probe',), act_b=('% act-probe-exit7',))),
+    'file relative to the home directory of the case': (
+        'before-assert', ('copy -rel-home data.txt out.probe', '% probe'), (), (),
+        dict(b_path='bdir/b.case', files={'s/data.txt': 'data of a', 's/bdir/data.txt': 'data of b'})),
+}
+SYMBOL_FORM_NAMES = tuple(SYMBOL_FORMS)
+REGION_LINE_NUMS_MEMO = 'suite-instruction-line-nums-memo'
+FORM_IN_REGION_LINE_NUMS_MEMO = 'filter -line-nums RANGE-FROM-SYMBOL'
+
+
+def _symbol_form_files(form: str, order: Sequence[str]):
+    phase, lines, setup_a, setup_b = SYMBOL_FORMS[form][:4]
+    extra = SYMBOL_FORMS[form][4] if len(SYMBOL_FORMS[form]) > 4 else {}
+    path = {'a': 'a.case', 'b': extra.get('b_path', 'b.case')}
+    suite = suite_file_text(None, [path[c] for c in order]) + '[%s]\n' % phase + ''.join(l + '\n' for l in lines)
+    files = {'s/exactly.suite': suite,
+             's/a.case': _case(setup=setup_a, act=extra.get('act_a', ('% act-probe',)), ba=(), asrt=(), cleanup=()),
+             's/' + path['b']: _case(setup=setup_b, act=extra.get('act_b', ('% act-probe',)), ba=(), asrt=(), cleanup=())}
+    files.update(extra.get('files', {}))
+    return files
+
+
+def _symbol_form_case_path(form: str, case: str) -> str:
+    extra = SYMBOL_FORMS[form][4] if len(SYMBOL_FORMS[form]) > 4 else {}
+    return 's/' + {'a': 'a.case', 'b': extra.get('b_path', 'b.case')}[case]
+
+
+_SYMBOL_FORM_REF = {}
+
+
+def symbol_form_reference(form: str, case: str):
+    """(identifier, event keys) of case `a` / `b` run ALONE with the suite given (`--suite`); once per process"""
+    if (form, case) not in _SYMBOL_FORM_REF:
+        w = World(_symbol_form_files(form, ('a', 'b')))
+        r = w.run(['--suite', 's/exactly.suite', _symbol_form_case_path(form, case)])
+        w.close()
+        if not isinstance(r.rc, int):
+            raise RuntimeError('harness error: reference run of %s / %s: %r' % (form, case, r.rc))
+        _SYMBOL_FORM_REF[(form, case)] = (r.identifier(), keys(r.events()))
+    return _SYMBOL_FORM_REF[(form, case)]
+
+
+def symbol_form_observe(form: str, b_first: bool, oracle_bug: bool = False):
+    """-> [(case, observed in the suite run, expected = observed alone)]"""
+    order = ('b', 'a') if b_first else ('a', 'b')
+    w = World(_symbol_form_files(form, order))
+    r = w.run(['suite', 's/exactly.suite'])
+    w.close()
+    pc = r.per_case()
+    if pc is None or not r.cwd_preserved or r.sandboxes_left or not isinstance(r.rc, int):
+        return [('suite', 'malformed suite run: rc=%r out=%r err=%r' % (r.rc, r.out, r.err), None)]
+    if [os.path.normpath(c[0]) for c in pc] != [_symbol_form_case_path(form, c) for c in order]:
+        return [('suite', 'cases processed: %r' % ([c[0] for c in pc],), None)]
+    out = []
+    for (name, ident, evs), c in zip(pc, order):
+        exp = symbol_form_reference(form, order[0] if oracle_bug else c)  # seeded: every case like the first one
+        out.append((c, (ident, keys(evs)), exp))
+    return out
+
+
+def symbol_form_ok(observations) -> bool:
+    if len(observations) != 2:
+        return False
+    for c, obs, exp in observations:
+        if exp is None or obs != exp:
+            return False
+        if obs[0] != 'PASS':  # absolute part: each case is consistent with its own definitions
+            return False
     return True
